@@ -4,9 +4,11 @@
 //
 // A case is one random instance expression (library combinators nested up to depth 3, every
 // component type instantiated at V = any, see package dyn) together with a pool of values that
-// contains distinct representations of equal values and single-position mutants. All ordered
-// pairs and all triples of the pool are evaluated; the oracle is the structural reference
-// dyn.RefEq over the models of the values, which never calls the library.
+// contains distinct representations of equal values, single-position mutants and values that
+// share storage (windows of one backing array, the same pointer / map inside different values;
+// the pool is built by one dyn.Ctx). All ordered pairs and all triples of the pool are
+// evaluated; the oracle is the structural reference dyn.RefEq over the models of the values,
+// which never calls the library and compares by value only.
 package main
 
 import (
@@ -353,7 +355,8 @@ func (c *caseT) witness(side, exprStr string, idx ...int) any {
 func blame[I fp.Eq[V]](e *dyn.Expr, a, b *dyn.M, reg map[*dyn.Expr]I, name func(*dyn.Expr) string) string {
 	for _, al := range dyn.Align(e, a, b) {
 		inst := reg[al.Kid]
-		got := inst.Eqv(dyn.Build(al.Kid.Dom, al.A), dyn.Build(al.Kid.Dom, al.B))
+		ctx := dyn.NewCtx() // one context: the two components share storage exactly as they do inside the pool values
+		got := inst.Eqv(ctx.Build(al.Kid.Dom, al.A), ctx.Build(al.Kid.Dom, al.B))
 		if got != dyn.RefEq(al.Kid, al.A, al.B) {
 			return blame(al.Kid, al.A, al.B, reg, name)
 		}
@@ -366,7 +369,8 @@ func blame[I fp.Eq[V]](e *dyn.Expr, a, b *dyn.M, reg map[*dyn.Expr]I, name func(
 func blameHash(e *dyn.Expr, a, b *dyn.M, reg map[*dyn.Expr]fp.Hashable[V]) string {
 	for _, al := range dyn.Align(e, a, b) {
 		inst := reg[al.Kid]
-		va, vb := dyn.Build(al.Kid.Dom, al.A), dyn.Build(al.Kid.Dom, al.B)
+		ctx := dyn.NewCtx()
+		va, vb := ctx.Build(al.Kid.Dom, al.A), ctx.Build(al.Kid.Dom, al.B)
 		if inst.Eqv(va, vb) && inst.Hash(va) != inst.Hash(vb) {
 			return blameHash(al.Kid, al.A, al.B, reg)
 		}
@@ -557,10 +561,12 @@ func runCase(w *vrt.W, i int) {
 	}
 	c := &caseT{w: w, idx: i, e: e, pool: dyn.GenPool(r, e.Dom, n)}
 	c.exprStr = e.Format(nameEq)
+	ctx := dyn.NewCtx() // one context for the whole pool: pinned parts of different values share their storage
 	for _, en := range c.pool {
-		c.x = append(c.x, dyn.Build(e.Dom, en.M))
-		c.y = append(c.y, dyn.Build(e.Dom, en.M))
+		c.x = append(c.x, ctx.Build(e.Dom, en.M))
+		c.y = append(c.y, dyn.Build(e.Dom, en.M)) // a copy in storage of its own
 	}
+	observePool(w, e, c.pool)
 	depth := 0
 	var walk func(x *dyn.Expr, d int)
 	walk = func(x *dyn.Expr, d int) {
@@ -615,6 +621,42 @@ func runCase(w *vrt.W, i int) {
 	}
 }
 
+// observePool counts the storage sharing and the kinds of time values the pool contains.
+func observePool(w *vrt.W, e *dyn.Expr, pool []dyn.Entry) {
+	for j, en := range pool {
+		if strings.HasPrefix(en.Rel, "alias-") {
+			w.Add("alias.variant_vs_origin."+en.Rel[len("alias-"):], 1)
+		}
+		if !en.Shared {
+			continue
+		}
+		w.Add("alias.values_with_shared_storage", 1)
+		for i := 0; i < j; i++ {
+			if pool[i].Shared {
+				dyn.AliasClasses(e.Dom, pool[i].M, en.M, func(class string) { w.Add("alias."+class, 1) })
+			}
+		}
+	}
+	if dyn.HasKind(e.Dom, dyn.KTime) {
+		for _, en := range pool {
+			dyn.TimeClasses(e.Dom, en.M, func(class string) { w.Add("time."+class, 1) })
+		}
+	}
+	if e.Op == dyn.OpTime {
+		for j := range pool {
+			for i := 0; i < j; i++ {
+				a, b := pool[i].M, pool[j].M
+				if fa, fb := dyn.OutsideInt64Nanos(a.Sec, a.Ns), dyn.OutsideInt64Nanos(b.Sec, b.Ns); fa || fb {
+					w.Add("time.root_pairs_with_an_instant_outside_int64_nanoseconds", 1)
+					if fa && fb && (a.Sec < 0) != (b.Sec < 0) {
+						w.Add("time.root_pairs_far_past_vs_far_future", 1)
+					}
+				}
+			}
+		}
+	}
+}
+
 func casesPerBatch(tier string) int {
 	if tier == "thorough" {
 		return 4000
@@ -637,7 +679,7 @@ func main() {
 				runCase(w, i)
 			}
 		},
-		Rule: "case = one instance expression + one value pool. The expression is drawn by a PRNG over the exported instances/combinators of eq (Given over 16 comparable kinds, String, Bytes, Time, Option, Seq, Slice, Ptr via lazy.Done|lazy.Call, PtrGiven, GoMap, FpMap, Tuple1..21, HCons/HNil, ContraMap through id/half/neg/len/lower/floor/isDefined/tuple projection), nested up to 3 combinators deep with every component type instantiated at any; global case number g forces catalogue entry g mod 66 (each eq/hash instance and every tuple arity) at nesting level 0,1,2(,3), so every instance occurs at every level. When all nodes have a hash counterpart (Number over 13 numeric kinds, String, Bytes, Option, Seq, Slice, Ptr, Tuple1..21, HCons/HNil, ContraMap) the hash.* expression of the same shape is checked as well. The pool (>=24 quick / >=40 thorough values) holds random base values, copies in another representation (nil vs empty vs spare capacity, 0.0 vs -0.0, other time zone, other pointer, other map history / the zero fp.Map), one single-position mutant per tuple component / sequence element of the first base value, prefixes/extensions, and random further mutants. All ordered pairs and all triples are evaluated: reflexive (also against a fresh structurally identical build), symmetric, transitive, Eqv == structural reference on the models (Go == at leaves, instants for time, nil == empty, pointers by target, maps by key), Eqv repeatable; Hash repeatable, equal on the fresh build, equal for Eqv-equal values. NaN never generated. distinct_nontrivial counts distinct (expression, pool) fingerprints of cases whose pool contained at least one pair of equal values in different representations (or distinct values collapsed by a ContraMap function) AND at least one pair exactly one position apart that is unequal.",
+		Rule: "case = one instance expression + one value pool. The expression is drawn by a PRNG over the exported instances/combinators of eq (Given over 16 comparable kinds, String, Bytes, Time, Option, Seq, Slice, Ptr via lazy.Done|lazy.Call, PtrGiven, GoMap, FpMap, Tuple1..21, HCons/HNil, ContraMap through id/half/neg/len/lower/floor/isDefined/tuple projection), nested up to 3 combinators deep with every component type instantiated at any; global case number g forces catalogue entry g mod 66 (each eq/hash instance and every tuple arity) at nesting level 0,1,2(,3), so every instance occurs at every level. When all nodes have a hash counterpart (Number over 13 numeric kinds, String, Bytes, Option, Seq, Slice, Ptr, Tuple1..21, HCons/HNil, ContraMap) the hash.* expression of the same shape is checked as well. The pool (>=24 quick / >=40 thorough values, + up to 10 storage-sharing ones) holds random base values, copies in another representation (nil vs empty vs spare capacity, 0.0 vs -0.0, other time zone / with a monotonic clock reading, other pointer, other map history / the zero fp.Map), one single-position mutant per tuple component / sequence element of the first base value, prefixes/extensions, and random further mutants. If values of the domain have storage (fp.Seq, []T, []byte, pointers, Go maps, fp.Map at any depth), the pool also holds one value without empty parts whose every slice is a window of a longer backing array, a copy of it in storage of its own, and values that share ALL their storage with it (the same pointers, maps, arrays - the whole pool is built in one allocation context) except that one sequence / byte slice somewhere inside is another window of the same array: same start and shorter (twice; sometimes empty), same start and longer, the same content at another offset, an overlapping window at another start; plus the identical object once more, a fresh copy of the shorter window, and mutants that share every part they did not change. Leaf values: every integer kind at both extremes, around +-2^7..2^63 and random; floats +-0, +-Inf, +-max, subnormals around the smallest normal, neighbours of 1, 0.1+0.2 vs 0.3, 2^24/2^53/2^63/2^64; strings with shared prefixes up to 40 bytes, embedded and lone NULs, invalid UTF-8, decomposed vs precomposed, 8/16-byte strings, substrings cut from one string; time.Time from year -1000 to 30000 incl. the zero Time, both ends of the int64-nanosecond window (1677-09-21 / 2262-04-11) to the nanosecond, the int32/uint32 second limits, pre-1970 instants with fractions, in 5 locations and with forged, mutually consistent monotonic readings. All ordered pairs and all triples are evaluated: reflexive (also against a fresh structurally identical build), symmetric, transitive, Eqv == structural reference on the models (Go == at leaves, instants for time, nil == empty, pointers by target, maps by key; by value only - storage is invisible to it), Eqv repeatable; Hash repeatable, equal on the fresh build, equal for Eqv-equal values. NaN never generated. distinct_nontrivial counts distinct (expression, pool) fingerprints of cases whose pool contained at least one pair of equal values in different representations (or distinct values collapsed by a ContraMap function) AND at least one pair exactly one position apart that is unequal.",
 		Assumptions: []string{
 			"component types are instantiated at any (boxed values); the generic library code is the same for every type argument",
 			"functions given to ContraMap are pure",
@@ -654,6 +696,31 @@ func main() {
 				"repr.float_zero_sign": 20, "repr.slice_nil_vs_empty": 20, "repr.slice_capacity": 20, "repr.pointer": 20, "repr.time_zone": 20,
 				"repr.bytes_nil_vs_empty": 5, "repr.map_nil_vs_empty": 5, "repr.fpmap_history": 5, "repr.contramap_collapsed": 20,
 				"hash.equal_pairs_with_equal_hash": 1000,
+				// storage sharing: every slice-like kind in every window relation, identical pointers / maps
+				"alias.values_with_shared_storage": 5000,
+				"alias.variant_vs_origin.prefix":   1000, "alias.variant_vs_origin.extend": 500, "alias.variant_vs_origin.shift": 500,
+				"alias.variant_vs_origin.window": 500, "alias.variant_vs_origin.same": 500,
+				"alias.pointer.identical": 200, "alias.gomap.identical": 50, "alias.fpmap.identical": 50,
+				"repr.slice_same_array_other_offset": 100, "repr.bytes_same_array_other_offset": 5,
+				// time.Time over its whole range
+				"time.values_outside_int64_nanoseconds": 500, "time.values_before_1970_with_fraction": 100, "time.values_zero_time": 20,
+				"time.values_year_below_1_or_above_9999": 100, "time.root_pairs_with_an_instant_outside_int64_nanoseconds": 500,
+				"time.root_pairs_far_past_vs_far_future": 50,
+			}
+			for _, kind := range []string{"seq", "slice", "bytes"} {
+				floor := int64(200)
+				if kind == "bytes" {
+					floor = 20
+				}
+				for _, class := range []string{"identical", "same_start_different_length", "same_start_one_empty", "other_offset_equal_content", "other_offset_different_content"} {
+					fl["alias."+kind+"."+class] = floor
+				}
+				fl["alias."+kind+".same_start_one_empty"] = floor / 10
+			}
+			if dyn.MonoAvailable() {
+				fl["time.values_with_monotonic_reading"] = 100
+				fl["repr.time_monotonic_vs_wall"] = 20
+				fl["repr.time_both_monotonic"] = 5
 			}
 			for _, n := range allNames() {
 				fl["hit."+n] = min
@@ -676,6 +743,9 @@ func main() {
 			cov["instances_never_exercised"] = missing
 			cov["instance_expressions"] = m.Counters["exprs"]
 			cov["equal_but_not_identical_pairs"] = m.Counters["pairs.equal_not_identical"]
+			cov["values_sharing_storage_with_another_pool_value"] = m.Counters["alias.values_with_shared_storage"]
+			cov["time_values_outside_int64_nanoseconds"] = m.Counters["time.values_outside_int64_nanoseconds"]
+			cov["time_monotonic_variant_available"] = dyn.MonoAvailable()
 		},
 	})
 }
